@@ -28,6 +28,10 @@ let () =
                 | _ -> failwith "cert") (String.split_on_char ',' spec) in
             let ms = List.map (fun m -> bytes_of (m ^ ".dll")) (String.split_on_char ',' mods) in
             "E " ^ String.concat "," (List.map (fun o -> match o with None -> "-" | Some c -> str_of c) (run_certs certs ms))
+          | "L" :: lsb :: status :: cpuinfo :: _ ->
+            let ((fields, line), (pid, mc)) = run_linux (unhex lsb) (unhex status) (unhex cpuinfo) in
+            Printf.sprintf "L %s pid=%s mc=%s line=%s" (String.concat "," (List.map hex fields)) (string_of_z pid)
+              (match mc with None -> "-" | Some v -> "0x" ^ ZA.format "%x" (z_to_zt v)) (hex line)
           | _ -> "?" in
         print_endline out
       end
